@@ -61,10 +61,10 @@ func goids() (int, int) {
 }
 
 type c07Access struct {
-	G      int    `json:"g"`
-	C      string `json:"c"`
-	RW     string `json:"rw"`
-	LK     string `json:"lk"` // "x" exclusive, "s" shared, "n" not held
+	G  int    `json:"g"`
+	C  string `json:"c"`
+	RW string `json:"rw"`
+	LK string `json:"lk"` // "x" exclusive, "s" shared, "n" not held
 }
 
 type c07World struct {
